@@ -256,6 +256,43 @@ def check_case(case):
             r.fail("typed-action-call", f"(a {' '.join(args)}): typed_action_call={tac}", list(args), str(tac),
                    tags=case["tags"])
             break
+        # an operator made without the problem's objects names every position by its parameter's type
+        tac2 = guard(lambda: sexp.read(operator(pg.D, "a", args, None).typed_action_call))
+        ok = not isinstance(tac2, Raised) and tac2[:1] == ["a"]
+        if ok:
+            try:
+                pairs = parse_typed_list(tac2[1:])
+                ok = [n for n, _ in pairs] == list(args) and [t for _, t in pairs] == [t for _, t in act.params]
+            except RefError:
+                ok = False
+        if not ok:
+            r.outcome("typed-call-differs")
+            r.fail("typed-action-call", f"(a {' '.join(args)}) without problem objects: typed_action_call={tac2}, expected "
+                   f"the parameter types {[t for _, t in act.params]} position by position", list(args), str(tac2),
+                   tags=case["tags"] + ["no-problem-objects"])
+            break
+        # what was grounded stays what it is: after the operator has been applied (to a state without any fact, then to
+        # one with the mentioned fluents defined) the same literals and expressions are reported
+        def after_use():
+            from ..refsem import mentioned, RefState
+            from pddl_plus_parser.models import State
+            for st in (None, RefState([], {f: Fraction(1) for f in mentioned(S, act, args, pg.objs)[1]})):
+                target = State(predicates={}, fluents={}, is_init=False) if st is None else pg.lib_state(st)[0]
+                try:
+                    op.apply(target, allow_inapplicable_actions=True)
+                except Exception:  # noqa (an undefined fluent in an empty state: the use is what matters here)
+                    pass
+            return observed_groups(), observed_pre(op.grounded_preconditions)
+        again = guard(after_use)
+        r.count("transitions")
+        if isinstance(again, Raised) or sorted(map(key, again[0])) != sorted(map(key, want_groups)) or set(again[1]) != set(got):
+            r.outcome("grounded-changed-by-use")
+            r.fail("effect-literals", f"(a {' '.join(args)}): after the operator was applied, its grounded literals read "
+                   f"{sorted(map(key, again[0])) if not isinstance(again, Raised) else again} / preconditions "
+                   f"{sorted(again[1].items()) if not isinstance(again, Raised) else ''}; expected {sorted(map(key, want_groups))} "
+                   f"as right after grounding; eff={case['eff']}", str(sorted(map(key, want_groups))), str(again)[:300],
+                   tags=case["tags"] + ["after-use"])
+            break
         r.outcome("agree")
     return r
 
